@@ -1,9 +1,498 @@
-//! group `include` — stub (not built yet).
-#![allow(unused)]
+//! group `include` — C25: src/zone_file/fs (the file-system parser with `$INCLUDE` handling).
+//!
+//! ops (see lean/QV/Driver/Include.lean): inc, incflat.  A case carries the whole file tree;
+//! the harness materialises it in a fresh temporary directory, makes that the working directory
+//! and opens the main file by its relative path, so relative include paths are resolved by the
+//! real code against real directories.
 use crate::common::*;
+use crate::g_zonefile::{gen_rr, name_wire, Ctx, Printer};
+use quandary::zone_file::fs;
+use quandary::zone_file::{LineContent, Parser};
+use std::io::Cursor;
+use std::path::{Path, PathBuf};
+use std::sync::atomic::{AtomicUsize, Ordering};
 
-pub fn run(_op: &str, _a: &[&str]) -> Option<String> {
-    None
+static COUNTER: AtomicUsize = AtomicUsize::new(0);
+
+type Fs = Vec<(Vec<u8>, Vec<u8>)>;
+
+fn parse_fs(s: &str) -> Option<Fs> {
+    if s == "-" {
+        return Some(vec![]);
+    }
+    s.split(',')
+        .map(|e| {
+            let (p, c) = e.split_once('=')?;
+            Some((unhex(p)?, unhex(c)?))
+        })
+        .collect()
 }
 
-pub fn gen(_rng: &mut Rng, _thorough: bool, _em: &mut Emitter) {}
+fn show_fs(fs: &Fs) -> String {
+    if fs.is_empty() {
+        return "-".into();
+    }
+    fs.iter().map(|(p, c)| format!("{}={}", hex(p), hex(c))).collect::<Vec<_>>().join(",")
+}
+
+struct TempTree {
+    root: PathBuf,
+}
+
+impl TempTree {
+    fn new(fs: &Fs) -> std::io::Result<Self> {
+        let n = COUNTER.fetch_add(1, Ordering::SeqCst);
+        let root = std::env::temp_dir().join(format!("qvinc-{}-{}", std::process::id(), n));
+        let _ = std::fs::remove_dir_all(&root);
+        std::fs::create_dir_all(&root)?;
+        for (p, c) in fs {
+            if p.first() == Some(&b'/') {
+                continue; // pre-existing absolute file (only /dev/null is used)
+            }
+            let rel = std::str::from_utf8(p).map_err(|_| std::io::Error::other("path"))?;
+            let full = root.join(rel);
+            if let Some(d) = full.parent() {
+                std::fs::create_dir_all(d)?;
+            }
+            std::fs::write(full, c)?;
+        }
+        let root = std::fs::canonicalize(root)?;
+        std::env::set_current_dir(&root)?;
+        Ok(TempTree { root })
+    }
+
+    /// canonical path, relative to the tree's root where possible
+    fn canon(&self, p: &Path) -> String {
+        use std::os::unix::ffi::OsStrExt;
+        match std::fs::canonicalize(p) {
+            Ok(c) => match c.strip_prefix(&self.root) {
+                Ok(r) => hex(r.as_os_str().as_bytes()),
+                Err(_) => hex(c.as_os_str().as_bytes()),
+            },
+            Err(_) => format!("?{}", hex(p.as_os_str().as_bytes())),
+        }
+    }
+}
+
+impl Drop for TempTree {
+    fn drop(&mut self) {
+        let _ = std::env::set_current_dir("/");
+        let _ = std::fs::remove_dir_all(&self.root);
+    }
+}
+
+fn show_rec(r: &quandary::zone_file::ParsedRr) -> String {
+    format!(
+        "{}:{}:{}:{}:{}",
+        hex(r.owner.wire_repr()),
+        u32::from(r.ttl),
+        u16::from(r.class),
+        u16::from(r.rr_type),
+        hex(r.rdata.octets())
+    )
+}
+
+fn err_kind_name(k: &fs::error::ErrorKind) -> String {
+    let s = format!("{:?}", k);
+    s.split(|c: char| !c.is_ascii_alphanumeric()).next().unwrap_or("").to_string()
+}
+
+/// (items as printed by `inc`, record-only items as compared by `incflat`)
+fn run_fs(tree: &TempTree, main: &[u8], depth: usize) -> Option<(Vec<String>, Vec<String>)> {
+    use std::ffi::OsStr;
+    use std::os::unix::ffi::OsStrExt;
+    let mainp = Path::new(OsStr::from_bytes(main));
+    let mut p = fs::Parser::open(mainp, depth).ok()?;
+    let mut items = Vec::new();
+    let mut recs = Vec::new();
+    let mut after = 0;
+    while after < 4 {
+        match p.next() {
+            Some(Ok(l)) => {
+                items.push(format!("rec:{}:{}:{}", tree.canon(&l.path), l.number, show_rec(&l.record)));
+                recs.push(format!("rec:{}", show_rec(&l.record)));
+            }
+            Some(Err(e)) => {
+                let line = match e.kind() {
+                    fs::error::ErrorKind::Syntax(d) => d.line(),
+                    fs::error::ErrorKind::IncludesTooDeep(x) => x.line(),
+                    fs::error::ErrorKind::FailedToOpenInclude(x) => x.line(),
+                    fs::error::ErrorKind::InvalidPath(x) => x.line(),
+                    fs::error::ErrorKind::GeneralIo(_) => 0,
+                };
+                let kind = match e.kind() {
+                    fs::error::ErrorKind::Syntax(_) => "Syntax".to_string(),
+                    k => err_kind_name(k),
+                };
+                items.push(format!("err:{}@{}:{}", kind, tree.canon(e.path()), line));
+                recs.push("err".into());
+                after += 1;
+            }
+            None => after += 1,
+        }
+    }
+    Some((items, recs))
+}
+
+fn join_items(v: &[String]) -> String {
+    if v.is_empty() { "ok -".into() } else { format!("ok {}", v.join(";")) }
+}
+
+fn run_mem(flat: &[u8]) -> Vec<String> {
+    let mut p = Parser::new(Cursor::new(flat.to_vec()));
+    let mut out = Vec::new();
+    let mut after = 0;
+    while after < 2 {
+        match p.next() {
+            Some(Ok(l)) => match l.content {
+                LineContent::Record(r) => out.push(format!("rec:{}", show_rec(&r))),
+                LineContent::Include(_) => out.push("inc".into()),
+            },
+            Some(Err(_)) => {
+                out.push("err".into());
+                after += 1;
+            }
+            None => after += 1,
+        }
+    }
+    out
+}
+
+pub fn run(op: &str, a: &[&str]) -> Option<String> {
+    match (op, a) {
+        ("inc", [d, fss, main]) => {
+            let (Ok(depth), Some(fsv), Some(mainb)) = (d.parse::<usize>(), parse_fs(fss), unhex(main)) else {
+                return Some("bad-op".into());
+            };
+            Some(guarded(|| {
+                let Ok(tree) = TempTree::new(&fsv) else { return "harness-io-error".into() };
+                match run_fs(&tree, &mainb, depth) {
+                    Some((items, _)) => join_items(&items),
+                    None => "open-failed".into(),
+                }
+            }))
+        }
+        ("incflat", [d, fss, main, flat]) => {
+            let (Ok(depth), Some(fsv), Some(mainb), Some(flatb)) = (d.parse::<usize>(), parse_fs(fss), unhex(main), unhex(flat)) else {
+                return Some("bad-op".into());
+            };
+            Some(guarded(|| {
+                let Ok(tree) = TempTree::new(&fsv) else { return "harness-io-error".into() };
+                match run_fs(&tree, &mainb, depth) {
+                    Some((_, recs)) => {
+                        let b = run_mem(&flatb);
+                        if recs == b { "ok same".into() } else { format!("differ {} {}", recs.len(), b.len()) }
+                    }
+                    None => "open-failed".into(),
+                }
+            }))
+        }
+        _ => None,
+    }
+}
+
+// ------------------------------------------------------------------------------------------
+// generators
+// ------------------------------------------------------------------------------------------
+
+const FILE_NAMES: &[&str] = &["main.zone", "a.zone", "sub/b.zone", "sub/deep/c.zone", "other/d.zone", "sub/e.zone", "f.zone", "other/b.zone"];
+
+fn dir_of(p: &str) -> Vec<&str> {
+    let mut c: Vec<&str> = p.split('/').collect();
+    c.pop();
+    c
+}
+
+/// a path text for `target` as seen from a file in directory of `includer`
+fn rel_path(rng: &mut Rng, includer: &str, target: &str) -> Vec<u8> {
+    let d = dir_of(includer);
+    let t: Vec<&str> = target.split('/').collect();
+    let mut common = 0;
+    while common < d.len() && common + 1 < t.len() && d[common] == t[common] {
+        common += 1;
+    }
+    let mut parts: Vec<String> = Vec::new();
+    for _ in common..d.len() {
+        parts.push("..".into());
+    }
+    for x in &t[common..] {
+        parts.push((*x).into());
+    }
+    let mut s = String::new();
+    if rng.chance(1, 5) {
+        s.push_str("./");
+    }
+    for (i, p) in parts.iter().enumerate() {
+        if i > 0 {
+            s.push('/');
+            if rng.chance(1, 10) {
+                s.push('/');
+            }
+            if rng.chance(1, 10) {
+                s.push_str("./");
+            }
+        }
+        s.push_str(p);
+    }
+    // presentation: unquoted, quoted, with escapes
+    let raw = s.into_bytes();
+    let mut out = Vec::new();
+    match rng.below(4) {
+        0 => {
+            out.push(b'"');
+            out.extend_from_slice(&raw);
+            out.push(b'"');
+        }
+        1 => {
+            for &b in &raw {
+                if rng.chance(1, 6) && !b.is_ascii_digit() {
+                    out.push(b'\\');
+                    out.push(b);
+                } else if rng.chance(1, 8) {
+                    out.extend_from_slice(format!("\\{:03}", b).as_bytes());
+                } else {
+                    out.push(b);
+                }
+            }
+        }
+        _ => out.extend_from_slice(&raw),
+    }
+    out
+}
+
+struct TreeGen {
+    files: Vec<Option<Vec<u8>>>, // content per FILE_NAMES index
+    flat_ok: bool,
+    pool: Vec<Vec<Vec<u8>>>,
+    n_files: usize,
+}
+
+fn render_abs(name: &[Vec<u8>]) -> Vec<u8> {
+    // plain rendering of an absolute name (labels here are simple: generated from LABELS)
+    let mut out = Vec::new();
+    if name.is_empty() {
+        return b".".to_vec();
+    }
+    for l in name {
+        for &b in l {
+            if matches!(b, b' ' | b'\t' | b'(' | b')' | b';' | b'\n' | b'\r' | b'.' | b'\\' | b'"' | b'@' | b'$') || !(33..127).contains(&b) {
+                out.extend_from_slice(format!("\\{:03}", b).as_bytes());
+            } else {
+                out.push(b);
+            }
+        }
+        out.push(b'.');
+    }
+    out
+}
+
+impl TreeGen {
+    /// generate file `idx` under the simulated context `ctx`; returns (text, flattened text).
+    /// `ctx` is updated to the context after the file (origin restored by the caller).
+    fn gen_file(&mut self, rng: &mut Rng, idx: usize, ctx: &mut Ctx, depth: usize, class: u16) -> (Vec<u8>, Vec<u8>) {
+        let mut text: Vec<u8> = Vec::new();
+        let mut flat: Vec<u8> = Vec::new();
+        let n = rng.range(1, 8);
+        if ctx.origin.is_none() {
+            let o = vec![b"example".to_vec(), b"test".to_vec()];
+            let line = b"$ORIGIN example.test.\n".to_vec();
+            text.extend_from_slice(&line);
+            flat.extend_from_slice(&line);
+            ctx.origin = Some(o);
+        }
+        for _ in 0..n {
+            match rng.below(10) {
+                0 => {
+                    let mut o = ctx.origin.clone().unwrap();
+                    if rng.chance(1, 2) || o.len() > 4 {
+                        o = vec![rng.pick(&[&b"zone"[..], b"x", b"example"]).to_vec(), b"test".to_vec()];
+                    } else {
+                        o.insert(0, rng.pick(&[&b"s1"[..], b"s2", b"deep"]).to_vec());
+                    }
+                    let mut line = b"$ORIGIN ".to_vec();
+                    line.extend(render_abs(&o));
+                    line.push(b'\n');
+                    text.extend_from_slice(&line);
+                    flat.extend_from_slice(&line);
+                    ctx.origin = Some(o);
+                }
+                1 => {
+                    let v = *rng.pick(&[60u32, 300, 7200]);
+                    let line = format!("$TTL {}\n", v).into_bytes();
+                    text.extend_from_slice(&line);
+                    flat.extend_from_slice(&line);
+                    ctx.default_ttl = Some(v);
+                }
+                2 | 3 | 4 if depth < 5 && idx + 1 < self.n_files => {
+                    // include a later file (the include graph is a DAG)
+                    let j = rng.range(idx + 1, self.n_files - 1);
+                    let inc_origin = if rng.chance(1, 2) {
+                        Some(vec![rng.pick(&[&b"inc"[..], b"o2", b"sub"]).to_vec(), b"test".to_vec()])
+                    } else {
+                        None
+                    };
+                    let mut line = if rng.chance(1, 3) { b"$include ".to_vec() } else { b"$INCLUDE ".to_vec() };
+                    line.extend(rel_path(rng, FILE_NAMES[idx], FILE_NAMES[j]));
+                    if let Some(o) = &inc_origin {
+                        line.push(b' ');
+                        line.extend(render_abs(o));
+                    }
+                    if rng.chance(1, 6) {
+                        line.extend_from_slice(b" ; comment");
+                    }
+                    line.push(b'\n');
+                    text.extend_from_slice(&line);
+                    // semantics being simulated: child context = includer's, origin overridden
+                    let saved_origin = ctx.origin.clone();
+                    if let Some(o) = &inc_origin {
+                        ctx.origin = Some(o.clone());
+                        flat.extend_from_slice(b"$ORIGIN ");
+                        flat.extend(render_abs(o));
+                        flat.push(b'\n');
+                    }
+                    if self.files[j].is_none() {
+                        let (t, f) = self.gen_file(rng, j, ctx, depth + 1, class);
+                        self.files[j] = Some(t);
+                        flat.extend(f);
+                    } else {
+                        // already generated under another context: flatten by re-expanding is not
+                        // possible textually here, so give up the flattening oracle for this tree
+                        // and forget what the context is
+                        self.flat_ok = false;
+                        ctx.prev_owner = None;
+                        ctx.prev_ttl = None;
+                        ctx.prev_class = None;
+                        ctx.default_ttl = None;
+                    }
+                    // the includer's origin is restored
+                    ctx.origin = saved_origin.clone();
+                    flat.extend_from_slice(b"$ORIGIN ");
+                    flat.extend(render_abs(&saved_origin.unwrap()));
+                    flat.push(b'\n');
+                }
+                _ => {
+                    let mut p = Printer::new(rng);
+                    p.allow_paren = rng.chance(1, 4);
+                    let r = gen_rr(rng, ctx, &mut self.pool, class);
+                    p.record(rng, &r, ctx, false);
+                    if !p.out.ends_with(b"\n") {
+                        p.out.push(b'\n');
+                    }
+                    text.extend_from_slice(&p.out);
+                    flat.extend_from_slice(&p.out);
+                }
+            }
+        }
+        (text, flat)
+    }
+}
+
+fn emit(em: &mut Emitter, case: &str) {
+    let mut it = case.split(' ');
+    let op = it.next().unwrap();
+    let args: Vec<&str> = it.collect();
+    let r = run(op, &args).unwrap_or_else(|| "bad-op".into());
+    em.emit(case, &r);
+}
+
+fn gen_tree(rng: &mut Rng, em: &mut Emitter) {
+    let n_files = if rng.chance(1, 8) { 1 } else { rng.range(2, 6) };
+    let mut g = TreeGen { files: vec![None; FILE_NAMES.len()], flat_ok: true, pool: Vec::new(), n_files };
+    let mut ctx = Ctx::new();
+    let (main, flat) = g.gen_file(rng, 0, &mut ctx, 0, 1);
+    g.files[0] = Some(main);
+    let mut fsv: Fs = Vec::new();
+    for (i, f) in g.files.iter().enumerate() {
+        if let Some(c) = f {
+            fsv.push((FILE_NAMES[i].as_bytes().to_vec(), c.clone()));
+        }
+    }
+    let fss = show_fs(&fsv);
+    let mainh = hex(b"main.zone");
+    let depth = rng.below(5);
+    let case = format!("inc {} {} {}", depth, fss, mainh);
+    emit(em, &case);
+    // the textual-inclusion oracle, whenever no depth/open error interferes
+    if g.flat_ok {
+        for d in [depth, 6] {
+            let probe = run("inc", &[&d.to_string(), &fss, &mainh]).unwrap();
+            if !probe.contains("err:IncludesTooDeep") && !probe.contains("err:FailedToOpenInclude") {
+                emit(em, &format!("incflat {} {} {} {}", d, fss, mainh, hex(&flat)));
+                break;
+            }
+        }
+    }
+}
+
+/// hand-shaped trees: cycles cut by the depth limit, runs of consecutive includes, missing
+/// files, main file in a sub-directory, absolute paths
+fn gen_special(rng: &mut Rng, em: &mut Emitter, thorough: bool) {
+    let h = |s: &str| hex(s.as_bytes());
+    let f = |v: &[(&str, &str)]| -> String { v.iter().map(|(p, c)| format!("{}={}", h(p), h(c))).collect::<Vec<_>>().join(",") };
+    let rec = "$ORIGIN t.\na 5 IN A 1.2.3.4\n";
+    // self-inclusion and mutual inclusion, every depth limit
+    for d in 0..=5 {
+        emit(em, &format!("inc {} {} {}", d, f(&[("main.zone", "$ORIGIN t.\na 5 IN A 1.1.1.1\n$INCLUDE main.zone\nb A 2.2.2.2\n")]), h("main.zone")));
+        emit(em, &format!("inc {} {} {}", d, f(&[("main.zone", "$ORIGIN t.\n$INCLUDE x.zone\nm 5 IN A 9.9.9.9\n"), ("x.zone", "x 6 IN A 1.1.1.1\n$INCLUDE main.zone\n")]), h("main.zone")));
+        // a chain main -> c1 -> c2 -> c3 -> c4
+        emit(em, &format!("inc {} {} {}", d, f(&[
+            ("main.zone", "$ORIGIN t.\n$INCLUDE c1.zone\nm 5 IN A 9.9.9.9\n"),
+            ("c1.zone", "c1 5 IN A 1.1.1.1\n$INCLUDE c2.zone\n\tA 1.1.1.2\n"),
+            ("c2.zone", "c2 A 2.2.2.2\n$INCLUDE c3.zone\n"),
+            ("c3.zone", "$INCLUDE c4.zone sub\nc3 A 3.3.3.3\n"),
+            ("c4.zone", "@ A 4.4.4.4\nc4 A 4.4.4.5\n"),
+        ]), h("main.zone")));
+    }
+    // origin scoping: includee changes $ORIGIN, includer's is restored; other context flows back
+    emit(em, &format!("inc 2 {} {}", f(&[
+        ("main.zone", "$ORIGIN p.\n$TTL 100\nfirst IN A 1.1.1.1\n$INCLUDE i.zone q.\nafter A 2.2.2.2\n\tA 2.2.2.3\n"),
+        ("i.zone", "in1 A 3.3.3.3\n$ORIGIN r.\n$TTL 200\nin2 CH TXT x\n"),
+    ]), h("main.zone")));
+    // relative paths: main in a sub-directory; sibling with the same name in the root
+    emit(em, &format!("inc 3 {} {}", f(&[
+        ("d/main.zone", "$ORIGIN t.\n$INCLUDE b.zone\n$INCLUDE ../b.zone\n$INCLUDE e/b.zone\n"),
+        ("d/b.zone", "db 5 IN A 1.1.1.1\n"),
+        ("b.zone", "rootb 5 IN A 2.2.2.2\n"),
+        ("d/e/b.zone", "deb 5 IN A 3.3.3.3\n$INCLUDE ../b.zone\n$INCLUDE b.zone\n"),
+    ]), h("d/main.zone")));
+    emit(em, &format!("inc 3 {} {}", f(&[
+        ("d/main.zone", "$ORIGIN t.\n$INCLUDE b.zone\nx 5 IN A 1.1.1.1\n"),
+        ("b.zone", "rootb 5 IN A 2.2.2.2\n"),
+    ]), h("d/main.zone")));
+    // missing file, absolute path, path presentations
+    emit(em, &format!("inc 3 {} {}", f(&[("main.zone", "$ORIGIN t.\na 5 IN A 1.1.1.1\n$INCLUDE nope.zone\nb A 2.2.2.2\n")]), h("main.zone")));
+    emit(em, &format!("inc 3 {},2f6465762f6e756c6c=- {}", f(&[("main.zone", "$ORIGIN t.\na 5 IN A 1.1.1.1\n$INCLUDE /dev/null\nb A 2.2.2.2\n")]), h("main.zone")));
+    emit(em, &format!("inc 3 {} {}", f(&[
+        ("main.zone", "$ORIGIN t.\n$INCLUDE \"s p/a b.zone\" ; quoted, with spaces\n$INCLUDE s\\ p/a\\032b.zone\n"),
+        ("s p/a b.zone", "sp 5 IN A 1.1.1.1\n"),
+    ]), h("main.zone")));
+    // an error inside an included file ends everything
+    emit(em, &format!("inc 3 {} {}", f(&[("main.zone", "$ORIGIN t.\na 5 IN A 1.1.1.1\n$INCLUDE i.zone\nb A 2.2.2.2\n"), ("i.zone", "i A 3.3.3.3\nbad A 1.2.3\nnever A 1.1.1.1\n")]), h("main.zone")));
+    // included file without trailing newline, unbalanced parenthesis at its end
+    emit(em, &format!("inc 3 {} {}", f(&[("main.zone", "$ORIGIN t.\n$INCLUDE i.zone\nb 5 IN A 2.2.2.2\n"), ("i.zone", "i 7 IN A 3.3.3.3")]), h("main.zone")));
+    emit(em, &format!("inc 3 {} {}", f(&[("main.zone", "$ORIGIN t.\n$INCLUDE i.zone\nb 5 IN A 2.2.2.2\n"), ("i.zone", "i 7 IN A 3.3.3.3 (\n")]), h("main.zone")));
+    // long runs of consecutive includes (the recursion of fs::Parser::next).  NOTE: each include
+    // that yields nothing adds two frames of `fs::Parser::next` (`return self.next()` is not a
+    // guaranteed tail call); ~1500 (debug) / ~7000 (release) consecutive includes overflow an
+    // 8 MiB stack — an abort, which no harness can catch (reported as a finding; the runs here
+    // stay below it).
+    let runs: &[usize] = if thorough { &[1, 10, 100, 400, 800] } else { &[1, 10, 100, 400] };
+    for &n in runs {
+        let mut m = String::from("$ORIGIN t.\n");
+        for i in 0..n {
+            m.push_str(if i % 3 == 0 { "$INCLUDE e.zone\n" } else { "$INCLUDE one.zone\n" });
+        }
+        m.push_str("last 5 IN A 9.9.9.9\n");
+        emit(em, &format!("inc 1 {} {}", f(&[("main.zone", &m), ("e.zone", ""), ("one.zone", if rng.chance(1, 2) { "o 1 IN A 1.1.1.1\n" } else { "" })]), h("main.zone")));
+    }
+    let _ = rec;
+}
+
+pub fn gen(rng: &mut Rng, thorough: bool, em: &mut Emitter) {
+    gen_special(rng, em, thorough);
+    let n = if thorough { 20_000 } else { 1_500 };
+    for _ in 0..n {
+        gen_tree(rng, em);
+    }
+    let _ = name_wire;
+}
